@@ -71,7 +71,7 @@ class History(object):
         self.errors = []
 
 
-def run_history(backend, sender, factory_bounces, backoff_table, rcpts, outcomes, store_pool=None, relay_pool=None,
+def _run_history_body(h, backend, sender, factory_bounces, backoff_table, rcpts, outcomes, store_pool=None, relay_pool=None,
                 headers_only=False, timeout=5.0, expect_rounds=None):
     """backend: harness.props.c15.Backend instance. Returns (History, final) with final =
     ('gone',) or ('alive', [rcpt ids], attempts)."""
@@ -81,7 +81,6 @@ def run_history(backend, sender, factory_bounces, backoff_table, rcpts, outcomes
     from slimta.bounce import Bounce
     from slimta.smtp.reply import Reply
 
-    h = History()
     try:
         gevent.get_hub().exception_stream = None      # failing attempt greenlets are part of the scripts
     except Exception:
@@ -148,8 +147,13 @@ def run_history(backend, sender, factory_bounces, backoff_table, rcpts, outcomes
             self._inner = inner
 
         def __getattr__(self, name):
+            if name == 'wait':
+                # announcements racing with enqueue are a schedule of their own (C03/C12 scheduler runs)
+                def nowait():
+                    raise NotImplementedError()
+                return nowait
             f = getattr(self._inner, name)
-            if name == 'wait' or not callable(f):
+            if not callable(f):
                 return f
 
             def call(*a, **kw):
@@ -209,3 +213,19 @@ def run_history(backend, sender, factory_bounces, backoff_table, rcpts, outcomes
         return h, final
     finally:
         q.kill()
+
+
+def run_history(backend, sender, factory_bounces, backoff_table, rcpts, outcomes, store_pool=None, relay_pool=None,
+                headers_only=False, timeout=2.5, expect_rounds=None):
+    """Runs the history in its own greenlet under a hard time limit: a queue that blocks for ever (e.g. a bounded pool
+    that is never released) is reported as ('hung', where) instead of stalling the check."""
+    h = History()
+    g = gevent.spawn(_run_history_body, h, backend, sender, factory_bounces, backoff_table, rcpts, outcomes,
+                     store_pool, relay_pool, headers_only, timeout, expect_rounds)
+    g.join(timeout + 1.0)
+    if not g.ready():
+        g.kill(block=False)
+        return h, ('hung', 'the history did not finish: enqueue or an attempt is blocked for ever')
+    if not g.successful():
+        return h, ('error', repr(g.exception))
+    return g.value
